@@ -113,7 +113,10 @@ def gen_case(rng):
             if mode == 'disjoint':
                 new = []
             for _ in range(rng.randint(1, 2)):
-                new.insert(rng.randint(0, len(new)), gen.absent_label(rng, lab + new, kind))
+                nl = gen.absent_label(rng, lab + new, kind)
+                if kind == 'i' and rng.random() < 0.4:
+                    nl = rng.choice(lab) + 0.5          # fractional label on an integer axis
+                new.insert(rng.randint(0, len(new)), nl)
         c["new"] = new
         c["mode"] = mode
         c["as_axis"] = rng.random() < 0.25
